@@ -34,6 +34,15 @@ type Event struct {
 	ptr   interface{}
 }
 
+// PollRec: what one of two goroutines polling a getter of the same bar at the
+// same time saw, in its own order.
+type PollRec struct {
+	Step   int
+	Bar    int
+	Getter string // "completed" | "aborted"
+	Vals   []bool
+}
+
 type GetRec struct {
 	Step      int   `json:"step"`
 	Bar       int   `json:"bar"`
@@ -117,6 +126,7 @@ type Trace struct {
 	CancelSeq       int64
 	CyclesAtCancel  int64
 	PtyStream       []byte
+	Polls           []PollRec // concurrent getter polls ("get" steps with Flag)
 	Added           []bool
 	StepSeq         []int64 // event seq at the end of each top-level step
 	OutputErrs      int
@@ -840,6 +850,7 @@ func (t *Trace) clone() *Trace {
 	c.Chunks = append([]Chunk(nil), t.Chunks...)
 	c.Events = append([]Event(nil), t.Events...)
 	c.Gets = append([]GetRec(nil), t.Gets...)
+	c.Polls = append([]PollRec(nil), t.Polls...)
 	c.Writes = append([]WriteRec(nil), t.Writes...)
 	c.Adds = append([]AddRec(nil), t.Adds...)
 	c.Probes = append([]ProbeRec(nil), t.Probes...)
@@ -1040,6 +1051,22 @@ func (r *runner) scenario() {
 		r.delayReleased = true
 		r.event("client.release", 1, nil)
 		close(r.delay)
+		// (as in the "release" step: make sure the container has taken the release
+		// before Wait is called, otherwise "rendering has started" is a coin flip)
+		if cfg.DelaySleepRelease {
+			// ...without touching the container: its goroutine is idle and has nothing
+			// else to pick
+			select {
+			case <-time.After(25 * time.Millisecond):
+			case <-r.abort:
+			}
+		} else {
+			for i := 0; i < 64; i++ {
+				if _, err := r.p.Write(nil); err != nil {
+					break
+				}
+			}
+		}
 	}
 	r.stepsDone.Store(true)
 	r.curStep.Store("wait")
@@ -1047,6 +1074,21 @@ func (r *runner) scenario() {
 	if r.uwg != nil {
 		go func() {
 			time.Sleep(time.Millisecond)
+			if cfg.UserWGUntilDone {
+				// a member of the user's wait group that works until the container is
+				// over (like the writer goroutine of _examples/progressAsWriter)
+				for {
+					if _, err := r.p.Write(nil); err != nil {
+						break
+					}
+					select {
+					case <-time.After(200 * time.Microsecond):
+						continue
+					case <-r.abort:
+					}
+					break
+				}
+			}
 			s := r.event("client.uwg.done", 0, nil)
 			r.mu.Lock()
 			r.tr.UserWGDoneSeq = s
@@ -1082,6 +1124,17 @@ func (r *runner) scenario() {
 		close(waitDone)
 	}()
 	r.waitStarted.Store(true)
+	if cfg.Refresh == "autoinj" && cfg.Delay {
+		// a refresh interval that is long compared with the time between the end of
+		// the render delay and Wait: no tick gets in between (when every bar is done
+		// already, Wait needs none)
+		select {
+		case <-waitDone:
+		case <-r.abort:
+			return
+		case <-time.After(time.Millisecond):
+		}
+	}
 pump:
 	for {
 		select {
@@ -1585,6 +1638,29 @@ func (r *runner) runStepC(st *Step, idx, depth, client int) {
 			r.mu.Lock()
 			r.tr.Gets = append(r.tr.Gets, g)
 			r.mu.Unlock()
+			if st.Flag && depth == 0 {
+				// two clients ask different getters of the bar at the same time
+				var wg sync.WaitGroup
+				recs := []*PollRec{{Step: idx, Bar: st.Bar, Getter: "completed"}, {Step: idx, Bar: st.Bar, Getter: "aborted"}}
+				for _, pr := range recs {
+					pr := pr
+					wg.Add(1)
+					go func() {
+						defer wg.Done()
+						for i := 0; i < 40; i++ {
+							if pr.Getter == "completed" {
+								pr.Vals = append(pr.Vals, b.Completed())
+							} else {
+								pr.Vals = append(pr.Vals, b.Aborted())
+							}
+						}
+					}()
+				}
+				wg.Wait()
+				r.mu.Lock()
+				r.tr.Polls = append(r.tr.Polls, *recs[0], *recs[1])
+				r.mu.Unlock()
+			}
 		}
 	case "id":
 		if b != nil {
